@@ -59,6 +59,8 @@ impl<T> SharedObservable<T> {
     /// subscriber that immediately yields without any updates.
     pub fn subscribe(&self) -> Subscriber<T> {
         let version = self.state.read().unwrap().version();
+        #[cfg(eyeball_verif)]
+        crate::verif::point("subscribe:after_version");
         Subscriber::new(SharedReadLock::from_inner(Arc::clone(&self.state)), version)
     }
 
@@ -429,9 +431,13 @@ impl<T, L: Lock> Drop for SharedObservable<T, L> {
         // Only close the state if there are no other clones of this
         // `SharedObservable`.
         if Arc::strong_count(&self._num_clones) == 1 {
+            #[cfg(eyeball_verif)]
+            crate::verif::point("drop:decided_last");
             // If there are no other clones, obtaining a read lock can't fail.
             L::read_noblock(&self.state).close();
         }
+        #[cfg(eyeball_verif)]
+        crate::verif::point("drop:before_release");
     }
 }
 
@@ -453,6 +459,8 @@ impl<T, L: Lock> WeakObservable<T, L> {
     /// Returns `None` if the inner value has already been dropped.
     pub fn upgrade(&self) -> Option<SharedObservable<T, L>> {
         let state = Weak::upgrade(&self.state)?;
+        #[cfg(eyeball_verif)]
+        crate::verif::point("upgrade:between");
         let _num_clones = Weak::upgrade(&self._num_clones)?;
         Some(SharedObservable { state, _num_clones })
     }
